@@ -67,6 +67,15 @@ func runC07(r *rt.Run) {
 			check(text, w)
 		}
 	})
+	// one extra member of every name the library's sources spell, in every position
+	snd := sourceNameDocs()
+	r.Bounds["source_derived_member_documents"] = len(snd)
+	r.ParFor(len(snd), func(i int, w *rt.Worker) {
+		w.States++
+		w.Trans++
+		w.Nontriv++
+		check(snd[i], w)
+	})
 	// large documents, as they are, and with their last byte removed / one byte appended
 	large := docgen.LargeDocs()
 	r.Bounds["large_documents"] = len(large)
